@@ -9,6 +9,7 @@ import (
 	"encoding/binary"
 	"fmt"
 	"io"
+	"math"
 	"sync"
 
 	"github.com/muktihari/fit/internal/sliceutil"
@@ -886,7 +887,7 @@ func (d *Decoder) expandComponents(mesg *proto.Message, containingValue proto.Va
 		}
 
 		componentScaled := scaleoffset.Apply(val, component.Scale, component.Offset)
-		val = uint32(scaleoffset.Discard(componentScaled, componentField.Scale, componentField.Offset))
+		val = uint32(math.Round(scaleoffset.Discard(componentScaled, componentField.Scale, componentField.Offset)))
 		value := convertUint32ToValue(val, componentField.BaseType)
 
 		// All components fields are appended, so it makes more sense to search from the last order.
